@@ -27,6 +27,15 @@ if [ "$1" = "C17" ]; then
   # the supplementary free-running race pass needs a separately built -race binary
   export VERIF_RACE_BIN="$(cd .. && pwd)/bin/$(basename $BIN)-race"
   go build $MODFLAG -race -tags verif -o "$VERIF_RACE_BIN" ./cmd/mc >/dev/null 2>&1 || echo "note: -race build failed; race pass will be skipped"
+  # the collector-in-the-window pass needs a build in which gorgonia's uintptr windows contain a forced collection
+  # (an overlay derived from the module's own files at build time; nothing is written outside /verif)
+  export VERIF_GCW_BIN="$(cd .. && pwd)/bin/$(basename $BIN)-gcw"
+  GDIR="$(go list $MODFLAG -m -f '{{.Dir}}' gorgonia.org/tensor 2>/dev/null)"
+  OVD="$(cd .. && pwd)/build/gcw"
+  if [ -n "$GDIR" ] && python3 ../tools/gcw_overlay.py "$GDIR" "$OVD" >/dev/null 2>&1 \
+     && go build $MODFLAG -tags verif -overlay "$OVD/overlay.json" -o "$VERIF_GCW_BIN" ./cmd/mc >/dev/null 2>&1; then :; else
+    rm -f "$VERIF_GCW_BIN"; echo "note: gc-window build failed; that pass will be skipped"
+  fi
 fi
 cd "$ROOT"
 case "$1" in
